@@ -495,6 +495,7 @@ func checkC16(c *core.Ctx) {
 	}
 	c16IllTyped(c, fc, sc)
 	c16Faults(c, fc, sc)
+	c16ArgShapes(c, fc, sc)
 }
 
 // ---- ill-typed / self-referential definitions ----
@@ -817,6 +818,158 @@ func c16Faults(c *core.Ctx, fc string, sc *impl.Scratch) {
 		}
 	}, func(ch *explore.Chooser) bool { return !c.Expired() && !c.TooManyViolations() })
 	c.Count(0, st.States, st.Transitions, 0)
+}
+
+// c16ArgShapes: "for every argument list" - how an argument is WRITTEN.  Lists of 1..2 arguments, each one of:
+// plain name, the same name again, a path into a subdirectory, an absolute path, ./name, a name with a blank,
+// a name with a leading dash, a name without the .fo suffix (contributes declarations, yields no file), an
+// empty file; each with well-formed content or a syntax error.  gen_<base>.go belongs next to its source.
+func c16ArgShapes(c *core.Ctx, fc string, sc *impl.Scratch) {
+	type shape struct {
+		name, arg string // file name relative to the run directory; how it is passed ("@abs" = absolute)
+		gen       string // expected output relative to the run directory ("" = none)
+	}
+	shapes := []shape{
+		{"p.fo", "p.fo", "gen_p.go"},
+		{"sub/q.fo", "sub/q.fo", "sub/gen_q.go"},
+		{"r.fo", "@abs", "gen_r.go"},
+		{"s.fo", "./s.fo", "gen_s.go"},
+		{"sp ace.fo", "sp ace.fo", "gen_sp ace.go"},
+		{"-dash.fo", "-dash.fo", "gen_-dash.go"},
+		{"decl.txt", "decl.txt", ""},
+		{"noext", "noext", ""},
+		{"empty.fo", "empty.fo", "gen_empty.go"},
+	}
+	content := func(sh shape, k int, bad bool) string {
+		if sh.name == "empty.fo" {
+			if bad {
+				return "let ( =\n"
+			}
+			return ""
+		}
+		if bad {
+			return fmt.Sprintf("package main\n\nlet h%d ( =\n  1\n", k)
+		}
+		return fmt.Sprintf("package main\n\nlet h%d () =\n  %d\n", k, k)
+	}
+	st := explore.Explore(-1, func(ch *explore.Chooser) {
+		n := 1 + ch.Choose(2)
+		dir := sc.TempDir("c16a_")
+		defer os.RemoveAll(dir)
+		os.Mkdir(filepath.Join(dir, "sub"), 0o755)
+		var args, desc []string
+		var picked []shape
+		var bads []bool
+		firstBad := -1
+		for i := 0; i < n; i++ {
+			sh := shapes[ch.Choose(len(shapes))]
+			bad := ch.Choose(2) == 1
+			if i == 1 && sh.name == picked[0].name {
+				// the same file twice: same content as the first time
+				bad = bads[0]
+			}
+			os.WriteFile(filepath.Join(dir, sh.name), []byte(content(sh, i, bad)), 0o644)
+			a := sh.arg
+			if a == "@abs" {
+				a = filepath.Join(dir, sh.name)
+			}
+			args = append(args, a)
+			picked = append(picked, sh)
+			bads = append(bads, bad)
+			d := sh.arg
+			if bad {
+				d += "(syntax error)"
+				if firstBad < 0 {
+					firstBad = i
+				}
+			}
+			desc = append(desc, d)
+		}
+		r := impl.Run(dir, 20*time.Second, "", fc, args...)
+		if r.TimedOut {
+			r = impl.Run(dir, 60*time.Second, "", fc, args...)
+		}
+		c.Count(1, 0, 0, 1)
+		c.Hist("by_operator", "argument-shape", 1)
+		c.DistinctNT("args:"+strings.Join(desc, ","), true)
+		// every gen_* file anywhere below dir
+		found := map[string]string{}
+		filepath.Walk(dir, func(p string, info os.FileInfo, err error) error {
+			if err == nil && !info.IsDir() && strings.HasPrefix(filepath.Base(p), "gen_") {
+				b, _ := os.ReadFile(p)
+				rel, _ := filepath.Rel(dir, p)
+				found[rel] = string(b)
+			}
+			return nil
+		})
+		class := ""
+		out := r.Out()
+		switch {
+		case r.TimedOut:
+			class = "hang"
+		case strings.Contains(out, "fatal error:") || strings.Contains(out, "stack exceeds"):
+			class = "fatal"
+		case r.Exit == 0:
+			class = "ok"
+			want := map[string]bool{}
+			for _, sh := range picked {
+				if sh.gen != "" {
+					want[sh.gen] = true
+				}
+			}
+			for g := range want {
+				if b, ok := found[g]; !ok || len(b) == 0 || b[len(b)-1] != '\n' {
+					class = "ok-incomplete"
+				}
+			}
+			for g := range found {
+				if !want[g] {
+					class = "ok-output-in-wrong-place"
+				}
+			}
+			if firstBad >= 0 && class == "ok" {
+				class = "ok-despite-fault"
+			}
+		default:
+			class = "rejected"
+			diag := false
+			for _, ln := range strings.Split(out, "\n") {
+				ln = strings.TrimSpace(ln)
+				if ln != "" && !strings.HasPrefix(ln, "transpile:") {
+					diag = true
+				}
+			}
+			if !diag {
+				class = "rejected-silent"
+			}
+			for g, b := range found {
+				if len(b) == 0 || b[len(b)-1] != '\n' {
+					class = "rejected-dirty"
+				}
+				if firstBad >= 0 && g == picked[firstBad].gen {
+					class = "rejected-dirty"
+				}
+			}
+		}
+		c.Outcome("args:" + class)
+		c.Hist("outcome_counts", "args:"+class, 1)
+		// a rejection without a planted fault is within the property as long as it is clean (two files may clash)
+		okClass := class == "ok" || class == "rejected"
+		if !okClass {
+			c.Violation("C16:args:"+class, fmt.Sprintf("argument list %v: %s (exit=%d) %s; gen files found: %v", desc, class, r.Exit, firstLines(out, 3), keysOf(found)),
+				map[string]any{"kind": "argument-shape", "choices": append([]int{}, ch.Choices...), "arguments": desc, "observed": class + " exit=" + fmt.Sprint(r.Exit) + " " + trunc(out, 1000)})
+		}
+	}, func(ch *explore.Chooser) bool { return !c.Expired() && !c.TooManyViolations() })
+	c.Count(0, st.States, st.Transitions, 0)
+}
+
+func keysOf(m map[string]string) []string {
+	var ks []string
+	for k := range m {
+		ks = append(ks, k)
+	}
+	sort.Strings(ks)
+	return ks
 }
 
 func c16Replay(c *core.Ctx, fc string, sc *impl.Scratch) {
